@@ -15,12 +15,19 @@ DI   definite initialisation of the placement vectors of GlobalPlacer: a member 
 VB   validate before commit: in a member function (not a constructor) a throwing test that reads member M is not reachable
      from a write of M in the same function - otherwise the test sees the new value (it compares it with itself) and a rejected
      call has already changed the object
+DE   a member that memoises a function of other members of the same object (assigned only from an argument-less const
+     method, or initialised from constructor arguments that are also stored) is re-derived by every writer of those members
+FP   the reoptimisation strides `size - overlap` are non-zero because check() validates overlap < size *per family*: wherever a
+     ...ReoptSize meets a ...ReoptOverlap (operands of one operator, arguments of one call) both belong to the same family
+DZ   a cell dimension (may be zero) never becomes an integer divisor, locally or through call arguments, without a dominating
+     positivity test
 E1   'last element' indices: size()-1 evaluated unsigned without a non-emptiness guard; a function that can
      return size()-1 == -1 for an empty container must not feed a subscript
 E2   loops with a computed step: the step is provably non-zero (or listed with the reason)
 """
 import json
 import os
+import re as _re
 
 from ..frontend import VERIF, AnalysisBroken
 from ..model import Program, qt, loc_str, walk, inner
@@ -38,10 +45,11 @@ EXPLANATION = (
     "non-constant operands must be listed in rules/c07.json with a bound argument; a product that is not listed is reported. "
     "E1: `c.size() - k` evaluated in an unsigned type and used as a bound/index without a dominating non-emptiness test; and an "
     "interprocedural may-be-minus-one taint from functions that return `size() - 1` without an emptiness guard to vector "
-    "subscripts. E2: for-loops stepping by a computed amount need a step that interval evaluation under the dominating guards "
-    "proves non-zero, or a listed reason. M1/M2/E1/E2 have positive controls in selftest/c07_controls.cpp.")
+    "subscripts. DZ: forward may-be-zero taint from the Circuit's per-cell width / height vectors to integer divisors, through locals, "
+    "min/products, call and constructor arguments, sanitised by edge-dominating positivity tests. E2: for-loops stepping by a computed amount need a step that interval evaluation under the dominating guards "
+    "proves non-zero, or a listed reason. M1/M2/AS/VB/DZ/E1/E2 have positive controls in selftest/c07_controls.cpp.")
 
-DECLINED = ["out-of-bounds freedom of arbitrary subscripts, assertion unreachability and division by zero in general "
+DECLINED = ["out-of-bounds freedom of arbitrary subscripts, assertion unreachability and division by zero other than by a cell dimension "
             "(no abstract interpreter in the image can ingest these units; goto-cc fails on libstdc++)",
             "termination of the numerical iterations beyond the structural step rule",
             "optimality-related asserts in the transportation self-checks"]
@@ -65,6 +73,9 @@ def run(ctx, rep, tier):
     rep.rule("PF", "same-named parameter fields are forwarded to each other", 8)
     rep.rule("DI", "placement vectors of the global placer are assigned on every path before a step reads them", 2)
     rep.rule("VB", "no throwing validation of a member after that member was overwritten in the same function (expected count 0)", 0)
+    rep.rule("DE", "memoised members (derived from other members) are re-derived by every writer of their inputs (expected count 0)", 0)
+    rep.rule("FP", "window size and overlap of the rough-legalization passes are always taken from the same family (line / diag / square)", 6)
+    rep.rule("DZ", "no cell dimension (which may be zero) reaches an integer divisor without a positivity test (expected count 0)", 0)
     rep.rule("E1", "size()-1 style last-element indices are guarded against the empty container", 1)
     rep.rule("E2", "computed loop steps are provably non-zero or listed", 5)
     rep.rule("CTRL", "positive controls (selftest/c07_controls.cpp)", 4)
@@ -92,15 +103,10 @@ def run(ctx, rep, tier):
         def violation(self, rid, node, func, what, reason, key=None):
             self.v.append((rid, what))
 
-    class CCtx:
-        prog = ctl
-        eff = Effects(ctl)
-
-        def guards(self, *a, **k):
-            return ctx.__class__.guards(self, *a, **k)
+    from ..core import SubCtx
     sink = Sink()
-    scan(CCtx(), ctl, sink, {"products_32bit": {}, "narrowing_exceptions": {}, "narrowings_64_to_32": {}, "loop_steps": {}}, control=True)
-    for rid, n in (("M1", 1), ("M2", 1), ("AS", 1), ("VB", 1), ("E1", 2), ("E2", 1)):
+    scan(SubCtx(ctl, Effects(ctl)), ctl, sink, {"products_32bit": {}, "narrowing_exceptions": {}, "narrowings_64_to_32": {}, "loop_steps": {}}, control=True)
+    for rid, n in (("M1", 1), ("M2", 1), ("AS", 1), ("VB", 1), ("DE", 1), ("DZ", 2), ("E1", 2), ("E2", 1)):
         got = sum(1 for r, _w in sink.v if r == rid)
         if got >= n:
             rep.holds("CTRL", "selftest/c07_controls.cpp", None, "rule %s reports its %d seeded control(s)" % (rid, n), "%d reported" % got)
@@ -115,8 +121,41 @@ def shape(f, c):
     if c and c[0] == "var":
         d = f.unit.by_id.get(c[1]) if f is not None else None
         t = (des(d) if d is not None else "?") or "?"
-        return ("var", "0", "<%s>" % t)
+        return ("var", "0", "<%s>" % _resolve_alias(f, _plain_type(t)))
+    if c and c[0] == "elem" and len(c) >= 2 and isinstance(c[1], tuple) and c[1] and c[1][0] == "var":
+        # the element of a local container: keyed by the element type, however the element is reached (range-for variable,
+        # lambda parameter of a standard algorithm, iterator)
+        d = f.unit.by_id.get(c[1][1]) if f is not None else None
+        t = _plain_type((des(d) if d is not None else "?") or "?")
+        m = _re.match(r"^std::vector<(.*)>$", t)
+        if m:
+            inner_t = m.group(1).strip()
+            if inner_t.endswith(", std::allocator<%s>" % inner_t.split(", std::allocator<")[0]):
+                inner_t = inner_t.split(", std::allocator<")[0]
+            return ("var", "0", "<%s>" % inner_t)
     return tuple(shape(f, x) if isinstance(x, tuple) else x for x in c)
+
+
+def _resolve_alias(f, t):
+    """A local `using Entry = std::pair<...>;` leaves the alias name in the (non-desugared) type of a reference parameter."""
+    if f is None or not _re.match(r"^[A-Za-z_]\w*$", t):
+        return t
+    al = getattr(f.unit, "_aliases", None)
+    if al is None:
+        al = f.unit._aliases = {}
+        for d in f.unit.by_id.values():
+            if d.get("kind") in ("TypeAliasDecl", "TypedefDecl") and d.get("name"):
+                ty = d.get("type") or {}
+                al.setdefault(d["name"], set()).add(_plain_type(ty.get("desugaredQualType") or ty.get("qualType") or ""))
+    c = al.get(t) or set()
+    return next(iter(c)) if len(c) == 1 else t
+
+
+def _plain_type(t):
+    t = t.strip()
+    if t.startswith("const "):
+        t = t[6:]
+    return t.rstrip("&").strip()
 
 
 def skey(f, c):
@@ -213,8 +252,219 @@ def scan(ctx, prog, rep, cfgd, control):
     if not control:
         check_pf(ctx, prog, rep)
         check_di(ctx, prog, rep)
+    check_dz(ctx, prog, rep, control)
+    if not control:
+        from .common import check_family_pairing
+        if check_family_pairing(ctx, rep, "FP", list(prog.all_funcs(with_lambdas=False)), CQ + "RoughLegalizationParameters") == 0:
+            rep.unknown("FP", None, None, "size / overlap pairs", "no place where a window size meets an overlap was found (shape changed)")
+    from .common import check_eager_derived
+    n_de = check_eager_derived(ctx, rep, "DE")
+    if not control and n_de == 0:
+        rep.holds("DE", "src/**", None, "no member of a library class is a memoised function of other members of its object", "%d classes examined" % len(prog.records))
     check_e1(ctx, prog, rep, control)
     check_e2(ctx, prog, rep, cfgd, control)
+
+
+# ---- DZ ---------------------------------------------------------------------------------
+
+DZ_SOURCE_FIELDS = ("cellWidth_", "cellHeight_")
+DZ_INT = ("int", "long", "long long", "unsigned int", "unsigned long", "unsigned long long", "size_t", "short", "char")
+
+
+def _facts(c, val, out):
+    if c[0] == "un" and c[1] == "!":
+        return _facts(c[2], not val, out)
+    if c[0] == "bin" and ((c[1] == "&&" and val) or (c[1] == "||" and not val)):
+        _facts(c[2], val, out)
+        _facts(c[3], val, out)
+        return
+    out.append((c, val))
+
+
+def positive_guarded(ctx, f, node, ec):
+    """Is the evaluation of `node` edge-dominated by a test that the expression with canonical form ec is non-zero / positive?"""
+    owner = ctx.eff.func_of_node(node) or f
+    facts = []
+    for gc, val, _a, _b in (ctx.guards(owner, node) or []):
+        _facts(gc, val, facts)
+    flip = {"<": ">", "<=": ">=", ">": "<", ">=": "<=", "==": "==", "!=": "!="}
+    for c, val in facts:
+        if c == ec and val:
+            return True
+        if c[0] != "bin" or c[1] not in flip:
+            continue
+        op, a, b = c[1], c[2], c[3]
+        if b == ec and a[0] == "lit":
+            op, a, b = flip[op], b, a
+        if a != ec or b[0] != "lit":
+            continue
+        try:
+            k = float(b[1])
+        except (TypeError, ValueError):
+            continue
+        if (op == ">" and k >= 0 and val) or (op == ">=" and k > 0 and val) or (op == "!=" and k == 0 and val) or \
+           (op == "==" and k == 0 and not val) or (op == "<=" and k >= 0 and not val) or (op == "<" and k > 0 and not val):
+            return True
+    return False
+
+
+def check_dz(ctx, prog, rep, control):
+    """DZ. A cell dimension may be zero (zero-size terminals are part of the property's domain). A value read from the
+    Circuit's per-cell width / height vectors (an element, the minimum over the vector, a range-for variable, an accessor that
+    returns one), or a product / minimum with such a value, must not become the divisor of an integer division or remainder -
+    in the same function or through call arguments - unless a dominating test shows it positive."""
+    src_fields = tuple(CQ + "Circuit::" + n for n in DZ_SOURCE_FIELDS) if not control else None
+
+    def is_src_field(c):
+        if c[0] != "field":
+            return False
+        if control:
+            return c[1].endswith("::dims")
+        return c[1] in src_fields
+
+    def mentions_src(e):
+        return any(is_src_field(t) for t in subterms(canon(e)) if isinstance(t, tuple) and t and t[0] == "field")
+
+    returns_tainted = {}     # func key -> path
+    tainted_params = {}      # (func key, index) -> path
+    reports = {}
+
+    def analyse(f, params):
+        tv = {}
+        for i, path in params.items():
+            if i < len(f.params):
+                tv[f.params[i].get("id")] = path
+
+        def tainted(e):
+            s = strip(e, casts=True)
+            k = s.get("kind")
+            if k is None:
+                return None
+            c = canon(s)
+            if positive_guarded(ctx, f, s, c):
+                return None
+            if k == "DeclRefExpr":
+                return tv.get((s.get("referencedDecl") or {}).get("id"))
+            if k in ("CXXOperatorCallExpr", "ArraySubscriptExpr"):
+                ci = callee_info(s) if k == "CXXOperatorCallExpr" else None
+                if ci and ci["name"] == "operator[]" and ci["obj"] is not None and is_src_field(canon(ci["obj"])):
+                    return "element of " + pretty(canon(ci["obj"]))
+                if ci and ci["name"] == "operator*" and ci["obj"] is not None:
+                    return tainted(ci["obj"])
+                return None
+            if k == "UnaryOperator" and s.get("opcode") in ("*", "-", "+"):
+                return tainted(children(s)[0])
+            if k == "BinaryOperator" and s.get("opcode") == "*":
+                for ch in children(s):
+                    t = tainted(ch)
+                    if t:
+                        return t + " (times something)"
+                return None
+            if k == "ConditionalOperator":
+                ch = children(s)
+                return tainted(ch[1]) or tainted(ch[2])
+            if k in ("CallExpr", "CXXMemberCallExpr"):
+                ci, fs = ctx.eff.resolve_callee(s)
+                if ci is None:
+                    return None
+                if ci["name"] in ("min", "max") and not ci["is_member"] and len(ci["args"]) >= 2:
+                    ts = [tainted(a) for a in ci["args"][:2]]
+                    if ci["name"] == "min":
+                        return next((t for t in ts if t), None)
+                    return ts[0] if all(ts) else None
+                if ci["name"] == "min_element" and not ci["is_member"] and ci["args"] and mentions_src(ci["args"][0]):
+                    return "minimum over " + pretty(canon(ci["args"][0]))[:40]
+                for g in fs:
+                    if g.key in returns_tainted:
+                        return "%s() returns %s" % (g.short, returns_tainted[g.key])
+            return None
+
+        for _round in range(5):
+            changed = False
+            nodes = list(walk(f.body)) if f.body is not None else []
+            for x in nodes:
+                k = x.get("kind")
+                if k == "VarDecl" and x.get("id") not in tv and children(x):
+                    t = tainted(children(x)[-1])
+                    if t:
+                        tv[x.get("id")] = t + " -> " + str(x.get("name"))
+                        changed = True
+                elif k == "BinaryOperator" and x.get("opcode") == "=":
+                    l, r = children(x)
+                    ls = strip(l)
+                    if ls.get("kind") == "DeclRefExpr":
+                        vid = (ls.get("referencedDecl") or {}).get("id")
+                        if vid not in tv:
+                            t = tainted(r)
+                            if t:
+                                tv[vid] = t + " -> " + str((ls.get("referencedDecl") or {}).get("name"))
+                                changed = True
+                elif k == "CXXForRangeStmt":
+                    lv = [c for c in walk(x) if c.get("kind") == "VarDecl" and not str(c.get("name", "")).startswith("__")]
+                    rng = [c for c in walk(x) if c.get("kind") == "VarDecl" and str(c.get("name", "")).startswith("__range")]
+                    if lv and rng and lv[0].get("id") not in tv and children(rng[0]) and is_src_field(canon(strip(children(rng[0])[-1], casts=True))):
+                        tv[lv[0].get("id")] = "element of %s -> %s" % (pretty(canon(strip(children(rng[0])[-1], casts=True))), lv[0].get("name"))
+                        changed = True
+            if not changed:
+                break
+        out_params = []
+        roots = ([f.body] if f.body is not None else []) + list(getattr(f, "ctor_inits", []) or [])
+        for root in roots:
+            for x in walk(root):
+                k = x.get("kind")
+                if k in ("BinaryOperator", "CompoundAssignOperator") and x.get("opcode") in ("/", "%", "/=", "%="):
+                    if des(x).replace("const ", "") not in DZ_INT:
+                        continue
+                    dv = children(x)[1]
+                    if des(strip(dv)).replace("const ", "") not in DZ_INT and des(dv).replace("const ", "") not in DZ_INT:
+                        continue
+                    t = tainted(dv)
+                    if t:
+                        reports.setdefault((f.key, pretty(canon(x))[:60]), (x, f, t))
+                elif k == "ReturnStmt" and children(x) and f.key not in returns_tainted and not params:
+                    t = tainted(children(x)[0])
+                    if t:
+                        returns_tainted[f.key] = t
+                if k in CALL_KINDS:
+                    ci, fs = ctx.eff.resolve_callee(x)
+                    if not ci or not fs:
+                        continue
+                    for i, a in enumerate(ci["args"]):
+                        t = tainted(a)
+                        if t:
+                            for g in fs:
+                                if i < len(g.params) and (g.key, i) not in tainted_params:
+                                    tainted_params[(g.key, i)] = t + " -> %s(%s)" % (g.short, g.params[i].get("name"))
+                                    out_params.append(g)
+        return out_params
+
+    funcs = [f for f in prog.all_funcs(with_lambdas=True)]
+    # returns first (two rounds: accessors that forward accessors), then everything
+    for _r in range(2):
+        for f in funcs:
+            analyse(f, {})
+    work = [g for g in funcs if any(k[0] == g.key for k in tainted_params)]
+    done = {}
+    while work:
+        g = work.pop()
+        ps = {i: p for (k, i), p in tainted_params.items() if k == g.key}
+        if done.get(g.key) == set(ps):
+            continue
+        done[g.key] = set(ps)
+        work += analyse(g, ps)
+    for (fk, what), (x, f, t) in sorted(reports.items(), key=lambda kv: kv[0]):
+        rep.violation("DZ", x, f, "integer division %s: the divisor derives from a cell dimension (%s)" % (what, t[:160]),
+                      "cell dimensions may be zero (zero-size terminals) and no dominating test shows the divisor positive: division by zero",
+                      key="%s|divisor from a cell dimension: %s" % (f.short, skey(f, canon(children(x)[1]))))
+    if hasattr(rep, "extra"):
+        rep.extra["dz_tainted_parameters"] = len(tainted_params)
+        rep.extra["dz_functions_returning_a_dimension"] = len(returns_tainted)
+    if not control and not reports:
+        if not returns_tainted:
+            rep.unknown("DZ", None, None, "cell-dimension sources", "no accessor returning a cell dimension recognised (shape changed)")
+        else:
+            rep.holds("DZ", "src/**", None, "no cell dimension reaches an integer divisor without a positivity test",
+                      "%d accessors return a dimension, %d parameters receive one" % (len(returns_tainted), len(tainted_params)))
 
 
 # ---- E1 ---------------------------------------------------------------------------------
